@@ -77,6 +77,11 @@ func (p *C12) Gen(seed uint64, i int, tier string) *scen.Scenario {
 	sc.World.Stream = true
 	sc.World.Mode = c.mode
 	sc.World.Flags = c.flags
+	if scen.Mix(seed, 1012, uint64(i))%3 == 0 {
+		// a process is not "under go test" because of what its command line says after the program name: the go tool
+		// passes -test.* flags to a test binary; none of these is one (in a testing world they follow -test.run)
+		sc.World.Args = [][]string{{"serve"}, {"serve", "-bench"}, {"-benchmark-mode=off"}, {"--testing", "-v"}, {"test", "-timeout", "3s"}, {"-race"}}[scen.Mix(seed, 1013, uint64(i))%6]
+	}
 	sc.World.FileDir = "auto"
 	sc.World.Clock = scen.Clock{TickNs: 1, MinStep: 40, MaxStep: 4000}
 	sc.Note = fmt.Sprintf("cell entry=%s sev=%d flags=%v mode=%s admits=%v format=%s faulty=%v", c.entry, c.sev, c.flags, c.mode, c.admits, c.format, c.variant%3 == 1)
